@@ -56,6 +56,9 @@ struct Cfg {
     /// root declares a second global (`hue`) before `g`, and `sa` declares `hue` again itself (same
     /// id); `g` must be inherited all the same
     redeclared: bool,
+    /// root declares a second global (`hue`); both globals name the group `gg`, which the root
+    /// declares with `multiple(true)`: the two may be given together at every level
+    grouped: bool,
 }
 
 impl Cfg {
@@ -63,7 +66,7 @@ impl Cfg {
         if self.user_help { "help" } else { "sx" }
     }
     fn name(&self) -> String {
-        format!("naming={:?} global={:?}@{} ext={:?}{}", self.naming, self.gkind, self.def_level, self.ext, if self.user_help { " sibling=user-defined help" } else if self.ignored_error { " root error ignored" } else if self.precedence { " precedence over a collecting positional" } else if self.redeclared { " sa re-declares an earlier global" } else { "" })
+        format!("naming={:?} global={:?}@{} ext={:?}{}", self.naming, self.gkind, self.def_level, self.ext, if self.user_help { " sibling=user-defined help" } else if self.ignored_error { " root error ignored" } else if self.precedence { " precedence over a collecting positional" } else if self.redeclared { " sa re-declares an earlier global" } else if self.grouped { " two globals in one multiple group" } else { "" })
     }
     fn global_arg(&self) -> ArgSpec {
         let mut g = match self.gkind {
@@ -130,7 +133,18 @@ impl Cfg {
             hue.default = vec!["always".into()];
             sa.args.push(hue);
         }
+        if self.grouped {
+            let mut hue = ArgSpec::opt("hue", None, Some("hue"));
+            hue.global = true;
+            hue.groups.push("gg".into());
+            root.args.push(hue);
+            let mut g = self.global_arg();
+            g.groups.push("gg".into());
+            root.args.push(g);
+            root.groups.push(GroupSpec { id: "gg".into(), multiple: true, ..Default::default() });
+        }
         match self.def_level {
+            _ if self.grouped => {}
             0 => root.args.push(self.global_arg()),
             _ => sa.args.push(self.global_arg()),
         }
@@ -370,6 +384,21 @@ fn lines(c: &Cfg, max_chain: usize, thorough: bool) -> Vec<Line> {
         out.push(mk(&["-éApq"], &["sa"], vec![(false, false), (true, true)], "multi-byte flag, subcommand flag, two sub-level flags"));
         out.push(mk(&["-péApBq"], &["sa", "sb"], vec![(true, false), (true, false), (false, true)], "multi-byte flag in a group through two levels"));
     }
+    if c.grouped {
+        // both members of the group together, at every level
+        let (gtok, gval) = if takes { ("--glob=vs".to_string(), "vs".to_string()) } else { ("--glob".to_string(), String::new()) };
+        let mk = |toks: Vec<&str>, chain: Vec<&str>, glevel: usize| {
+            let mut globals: Vec<Vec<String>> = (0..=chain.len()).map(|_| vec![]).collect();
+            globals[glevel] = vec![gval.clone()];
+            Line { argv: toks.iter().map(|t| t.as_bytes().to_vec()).collect(), chain: chain.iter().map(|s| s.to_string()).collect(), locals: (0..=chain.len()).map(|_| (false, false)).collect(), globals, ext: None, desc: "both grouped globals".into() }
+        };
+        out.push(mk(vec!["--hue=k", &gtok], vec![], 0));
+        out.push(mk(vec!["sa", "--hue=k", &gtok], vec!["sa"], 1));
+        out.push(mk(vec!["sa", &gtok, "--hue=k"], vec!["sa"], 1));
+        out.push(mk(vec!["sa", "sb", "--hue=k", &gtok], vec!["sa", "sb"], 2));
+        out.push(mk(vec!["--hue=k", "sa", &gtok], vec!["sa"], 1));
+        out.push(mk(vec![&gtok, "sa", "sb", "--hue=k"], vec!["sa", "sb"], 0));
+    }
     // sibling dispatch
     for (tok, _) in c.spellings(c.sibling(), 'X', "sx-flag") {
         out.push(Line { argv: vec![tok.clone().into_bytes()], chain: vec![c.sibling().into()], locals: vec![(false, false), (false, false)], globals: vec![vec![], vec![]], ext: None, desc: "sibling".into() });
@@ -501,13 +530,14 @@ fn cfgs() -> Vec<Cfg> {
         for gkind in GKINDS {
             for def_level in [0usize, 1] {
                 for ext in [None, Some(Ext::Str), Some(Ext::Os)] {
-                    v.push(Cfg { naming, gkind, def_level, ext, user_help: false, ignored_error: false, precedence: false, redeclared: false });
+                    v.push(Cfg { naming, gkind, def_level, ext, user_help: false, ignored_error: false, precedence: false, redeclared: false, grouped: false });
                     if naming == Naming::Name && ext.is_none() {
-                        v.push(Cfg { naming, gkind, def_level, ext, user_help: true, ignored_error: false, precedence: false, redeclared: false });
-                        v.push(Cfg { naming, gkind, def_level, ext, user_help: false, ignored_error: true, precedence: false, redeclared: false });
-                        v.push(Cfg { naming, gkind, def_level, ext, user_help: false, ignored_error: false, precedence: true, redeclared: false });
+                        v.push(Cfg { naming, gkind, def_level, ext, user_help: true, ignored_error: false, precedence: false, redeclared: false, grouped: false });
+                        v.push(Cfg { naming, gkind, def_level, ext, user_help: false, ignored_error: true, precedence: false, redeclared: false, grouped: false });
+                        v.push(Cfg { naming, gkind, def_level, ext, user_help: false, ignored_error: false, precedence: true, redeclared: false, grouped: false });
                         if def_level == 0 {
-                            v.push(Cfg { naming, gkind, def_level, ext, user_help: false, ignored_error: false, precedence: false, redeclared: true });
+                            v.push(Cfg { naming, gkind, def_level, ext, user_help: false, ignored_error: false, precedence: false, redeclared: true, grouped: false });
+                            v.push(Cfg { naming, gkind, def_level, ext, user_help: false, ignored_error: false, precedence: false, redeclared: false, grouped: true });
                         }
                     }
                 }
@@ -518,7 +548,7 @@ fn cfgs() -> Vec<Cfg> {
 }
 
 fn cfg_json(c: &Cfg) -> Value {
-    json!({"naming": format!("{:?}", c.naming), "gkind": format!("{:?}", c.gkind), "def_level": c.def_level, "ext": c.ext.map(|e| format!("{:?}", e)), "user_help": c.user_help, "ignored_error": c.ignored_error, "precedence": c.precedence, "redeclared": c.redeclared})
+    json!({"naming": format!("{:?}", c.naming), "gkind": format!("{:?}", c.gkind), "def_level": c.def_level, "ext": c.ext.map(|e| format!("{:?}", e)), "user_help": c.user_help, "ignored_error": c.ignored_error, "precedence": c.precedence, "redeclared": c.redeclared, "grouped": c.grouped})
 }
 fn cfg_from(v: &Value) -> Option<Cfg> {
     Some(Cfg {
@@ -534,6 +564,7 @@ fn cfg_from(v: &Value) -> Option<Cfg> {
         ignored_error: v["ignored_error"].as_bool().unwrap_or(false),
         precedence: v["precedence"].as_bool().unwrap_or(false),
         redeclared: v["redeclared"].as_bool().unwrap_or(false),
+        grouped: v["grouped"].as_bool().unwrap_or(false),
     })
 }
 
